@@ -361,3 +361,24 @@ Proof.
   destruct (serializable _ _ F S) as [L P]. split; [assumption|].
   intros i os Hn. apply P. now apply map_nth_error.
 Qed.
+
+(** *** mutual exclusion is per DATASET (internal id), not per Go object: [LDs n] is the one lock of the
+    dataset currently named n.  A writer that commits to the dataset under some other mutex (e.g. the
+    WriteLock of a stale or duplicate Dataset object) is not [guarded], and an update is lost. *)
+Definition batch_under_other_lock (other d : lock) (k : marker) : list instr :=
+  [Acq other; Read d; Commit [(d, [k])]; Rel other].
+
+Lemma other_lock_not_guarded other d k : other <> d -> ~ guarded [] (batch_under_other_lock other d k).
+Proof. cbn. intros N (_ & [E|[]] & _). congruence. Qed.
+
+Lemma refuted_two_locks_one_dataset :
+  exists c, steps (init_config [batch_under_other_lock (LDs 50) (LDs 51) 1%N; batch_prog {| p_ds := LDs 51; p_ms := [1001%N]; p_new := false |}]) c
+            /\ terminal c = true /\ feeds c (LDs 51) <> log_feed (LDs 51) (clog c).
+Proof.
+  destruct (run_sched [0; 0; 1; 1; 1; 1; 0; 0]
+              (init_config [batch_under_other_lock (LDs 50) (LDs 51) 1%N;
+                            batch_prog {| p_ds := LDs 51; p_ms := [1001%N]; p_new := false |}])) as [c|] eqn:E.
+  - exists c. split; [eapply run_sched_steps; eassumption|].
+    vm_compute in E. injection E as <-. split; [reflexivity | vm_compute; discriminate].
+  - vm_compute in E. discriminate.
+Qed.
